@@ -11,7 +11,7 @@ import threading
 import time
 import traceback
 
-from . import c12, c13, engine, loader, proc
+from . import c12, c13, engine, loader, proc, sweep
 from .common import ENGINE_VERSION, HarnessError, digest, rng_for
 
 _STATE = {}
@@ -123,7 +123,15 @@ def _one_run(prop, seed, index, cfg, t0):
     try:
         rng = rng_for("run", prop, seed, index)
         mod = c12 if prop == "C12" else c13
-        spec = mod.gen_run(rng, cfg)
+        n_sweep = min(int(cfg.get("n_sweep", {}).get(prop, 0)), sweep.n_cases(prop))
+        if index < n_sweep:
+            # systematic part: enumerated fault / pre-emption points (sim/sweep.py)
+            start, stride, n = sweep.order(prop, seed)
+            case = (start + index * stride) % n
+            spec = sweep.spec_for(prop, case)
+            spec["sweep_case"] = case
+        else:
+            spec = mod.gen_run(rng, cfg)
         spec["seed"] = seed
         spec["run_index"] = index
         spec["sched_seed"] = rng.getrandbits(48)
@@ -132,6 +140,7 @@ def _one_run(prop, seed, index, cfg, t0):
         summ = mod.summarise(spec, result, info)
         summ.update(
             {
+                "sweep": "sweep_case" in spec,
                 "index": index,
                 "ok": not viols,
                 "violations": viols,
@@ -141,7 +150,7 @@ def _one_run(prop, seed, index, cfg, t0):
         )
         if viols:
             summ["spec"] = finalise_spec(spec, result)
-        elif index < cfg.get("n_samples", 3):
+        elif index < cfg.get("n_samples", 3) or n_sweep <= index < n_sweep + cfg.get("n_samples", 3):
             summ["sample"] = mod.sample_view(spec, result)
         return summ
     except HarnessError as e:
